@@ -97,6 +97,8 @@ pub fn define_variable(
     let index = *local_count;
     *local_count += 1;
     if let Some(scope) = scopes.last_mut() {
+        // A narrowing recorded for an earlier binding of this name says nothing about the new one.
+        scope.narrowings.variables.remove(&full_name);
         scope.bindings.insert(
             full_name,
             Binding::Variable {
